@@ -76,6 +76,16 @@ CLAIMED = {
         note=('The model is deterministic (tens of states); strength comes from the spec-derived oracle and the rendered files. '
               'Known finding F3 (gen_floats divisor) is recognised by its exact wrong value and listed in known_findings.json.'),
         technique='TLA+ spec + TLC (design check, oracle table); spec-derived replay on rendered files'),
+    'C14': dict(
+        category='model_checking', design='3/C14',
+        text=('TLC enumerates the DAT content model (every declaration order, header subset and order, 0..2 rows, every '
+              'single-line corruption kind at every line) and checks that the two-phase scanner design always answers within '
+              'the abstract expectation; every terminal state is rendered to text (separators, description spacing, both '
+              'date spellings, one/two digit days drawn per case) and replayed on parse_file and can_parse_file: faithful '
+              'channels/descriptions/units/typed values for valid texts, a DAT error for row-length mismatches and '
+              'undeclared names, no frame array for garbled values.'),
+        note='Trusts TLC and the harness text renderer; the exception class for garbled values is not judged.',
+        technique='TLA+ spec + TLC model checking; one implementation test per terminal state of the model'),
 }
 
 NOT_YET = 'check not built yet in this session; planned per DESIGN.md section 3'
